@@ -5,8 +5,10 @@
 //!   pqsim worker|replay-inner|shrink ...    internal
 
 mod alloc;
+mod complexity;
 mod crash;
 mod diffhint;
+mod serdefault;
 mod engines;
 mod exec;
 mod hashers;
@@ -17,6 +19,7 @@ mod queue;
 mod rng;
 mod sources;
 mod steps;
+mod twin;
 mod types;
 
 #[global_allocator]
